@@ -11,9 +11,18 @@ FLASH_FM = 0x2000
 SHRAM_REGION = 259
 
 
-def _fm(buf, shape, layout, region=1):
-    return {"shape": list(shape), "region": region, "addr": BUF * buf if region == 1 else FLASH_FM, "dtype": "INT8",
-            "layout": "NHCWB16" if layout else "NHWC", "scale": 0.5, "zp": 0}
+def _fm(buf, shape, layout, region=1, tile=0):
+    d = {"shape": list(shape), "region": region, "addr": BUF * buf if region == 1 else FLASH_FM, "dtype": "INT8",
+         "layout": "NHCWB16" if layout else "NHWC", "scale": 0.5, "zp": 0}
+    h, w, _ = shape
+    b = d["addr"]
+    if tile == 1 and h >= 2:
+        d["tiles"] = {"w0": w, "h0": h // 2, "h1": h // 2, "addrs": [b, 0, b + 0x800, 0]}
+    elif tile == 2 and w >= 2:
+        d["tiles"] = {"w0": w // 2, "h0": h, "h1": h, "addrs": [b, b + 0x400, 0, 0]}
+    elif tile == 3 and w >= 2 and h >= 2:
+        d["tiles"] = {"w0": w // 2, "h0": h // 2, "h1": h, "addrs": [b, b + 0x400, b + 0x800, 0]}
+    return d
 
 
 def realise(rec, accel, prev_w=None):
@@ -29,13 +38,13 @@ def realise(rec, accel, prev_w=None):
         return {"type": "dma", "src": [0, FLASH_LUT + 256 * slot, 256],
                 "dst": [SHRAM_REGION, npuhw.lut_base(accel) + 256 * slot, 256]}
     li, lo = rec["lay"] & 1, (rec["lay"] >> 1) & 1
-    d = {"ifm": _fm(rec["r"], (H, W, C), li), "block": "auto", "block_pick": rec["blk"]}
+    d = {"ifm": _fm(rec["r"], (H, W, C), li, tile=rec.get("tile", 0)), "block": "auto", "block_pick": rec["blk"]}
     if rec["lut"]:
         d["act"] = {"op": "TABLE_LOOKUP", "lut": rec["lut"] - 1}
     if k == "ew":
         d["type"] = "ew"
         d["sub"] = "ADD"
-        d["ofm"] = _fm(rec["w"], (H, W, C), lo)
+        d["ofm"] = _fm(rec["w"], (H, W, C), lo, tile=rec.get("tileo", 0))
         if rec["wb"] == 0:
             d["ifm2"] = {"shape": [1, 1, 1], "region": 0, "addr": 0, "dtype": "INT8", "scale": 0.5, "zp": 0}
             d["scalar"] = 3.0
@@ -49,7 +58,7 @@ def realise(rec, accel, prev_w=None):
     ow = (W + pl + pr - kw) // s + 1
     d["kernel"] = [kw, kh, s, s, 1, 1]
     d["pad"] = [pt, pl, pb, pr]
-    d["ofm"] = _fm(rec["w"], (oh, ow, C), lo)
+    d["ofm"] = _fm(rec["w"], (oh, ow, C), lo, tile=rec.get("tileo", 0))
     if k == "pool":
         d["type"] = "pool"
         d["sub"] = "MAX"
@@ -66,11 +75,33 @@ def realise(rec, accel, prev_w=None):
     return d
 
 
+def _shift(d, off):
+    """move every scratch-region (region 1) address of an operation description by off"""
+    for k in ("ifm", "ifm2", "ofm"):
+        f = d.get(k)
+        if f and f.get("region") == 1:
+            if "tiles" in f:
+                f["tiles"]["addrs"] = [a + off if (a or i == 0) else 0 for i, a in enumerate(f["tiles"]["addrs"])]
+            f["addr"] = f["addr"] + off
+    for k in ("weights", "biases"):
+        for w in d.get(k, []):
+            if w[0] == 1:
+                w[1] += off
+    for k in ("src", "dst"):
+        if k in d and d[k][0] == 1:
+            d[k][1] += off
+    return d
+
+
+HIGH = 0x1200000000
+
+
 def realise_list(recs, accel):
     out = []
     prev_w = None
+    hi = bool(recs) and recs[0].get("hi") and "u65" in accel
     for r in recs:
-        out.append(realise(r, accel, prev_w))
+        out.append(_shift(realise(r, accel, prev_w), HIGH) if hi else realise(r, accel, prev_w))
         if r["kind"] != "lutdma":
             prev_w = r["w"]
     return out
